@@ -11,6 +11,7 @@ ops (parameters = answers of the real code, see harness/c24.cpp):
   upd <suppr>                                -> <0|1> | <state>
   sup <global> <hex msg id> <verdicts>       -> <0|1> | <state>      verdicts: one of N C M per entry, or -
   supx <global> <hex msg id> <verdicts>      -> <0|1> | <state>
+  werr <showGlobal> <hex msg id> <verdicts> <verdicts>   -> <locally suppressed 0|1> | <state>   (`workerReportErr`)
   mark <n> (<hex file> <line>)*n             -> - | <state>
   recv <globsOk> <suppr>                     -> - | <state>       (<suppr> = the worker's entry; the parent sees `wire` of it)
   thread                                     -> - | <state>
@@ -59,6 +60,8 @@ def bitsAt (s : String) (st : State) (x : Suppr) : Bool :=
     | _ :: _, [] => false
   go st (if s == "-" then [] else s.toList)
 
+def clearFlags (s : Suppr) : Suppr := { s with checked := false, matched := false }
+
 def addResStr : AddResult → String
   | .ok => "ok" | .exists => "exists" | .noId => "noid" | .invalidId => "invalidid" | .invalidGlob => "invalidglob"
 
@@ -89,17 +92,35 @@ def step (st : State) (line : String) : State × String :=
     | none => (st, "bad-op")
   | ["sup", g, id, vs] =>
     match fromHex id with
-    | some id => let (st', b) := isSuppressedWith (g == "1") id st (parseVerdicts vs); out (boolStr b) st'
+    | some id =>
+      if (parseVerdicts vs).length != st.length then (st, "bad-op verdict-length")
+      else let (st', b) := isSuppressedWith (g == "1") id st (parseVerdicts vs); out (boolStr b) st'
+    | none => (st, "bad-op")
+  | ["werr", sg, id, vs1, vs2] =>
+    -- a worker's CppCheckLogger::reportErr: verdict strings before the local call and before the (possible) global call
+    match fromHex id with
+    | some id =>
+      if (parseVerdicts vs1).length != st.length then (st, "bad-op verdict-length")
+      else
+        let r := isSuppressedWith false id st (parseVerdicts vs1)
+        let goGlobal := !r.2 || sg == "1"
+        if goGlobal && (parseVerdicts vs2).length != st.length then (st, "bad-op verdict-length")
+        else
+          -- `workerReportErr` with the verdict function given positionally (the same list both times: verdicts read no flag)
+          let v : Suppr → Msg → Res := fun s _ => (parseVerdicts vs1).getD ((st.map clearFlags).idxOf (clearFlags s)) .none
+          out (boolStr r.2) (workerReportErr (sg == "1") v st ⟨id, 0⟩)
     | none => (st, "bad-op")
   | ["supx", g, id, vs] =>
     match fromHex id with
-    | some id => let (st', b) := isSuppressedExplicitlyWith (g == "1") id st (parseVerdicts vs); out (boolStr b) st'
+    | some id =>
+      if (parseVerdicts vs).length != st.length then (st, "bad-op verdict-length")
+      else let (st', b) := isSuppressedExplicitlyWith (g == "1") id st (parseVerdicts vs); out (boolStr b) st'
     | none => (st, "bad-op")
   | "mark" :: n :: rest =>
     match n.toNat? with
     | some n =>
       match parseLocs n rest with
-      | some locs => out "-" (mark locs st)
+      | some locs => out "-" (markStream none locs st)
       | none => (st, "bad-op")
     | none => (st, "bad-op")
   | ["recv", g, t] =>
